@@ -37,6 +37,10 @@ def mixins_of(node):
     return out
 
 
+def has_cond(node) -> bool:
+    return any(d.name.value in ("skip", "include") for d in (node.directives or ()))
+
+
 def sel_sx(selset):
     out = []
     for s in (selset.selections if selset else ()):
@@ -44,11 +48,11 @@ def sel_sx(selset):
             out.append([Sym("f"), [Sym("some"), s.alias.value] if s.alias else Sym("none"), s.name.value,
                         mixins_of(s), sel_sx(s.selection_set)])
         elif isinstance(s, FragmentSpreadNode):
-            out.append([Sym("s"), s.name.value])
+            out.append([Sym("s"), s.name.value, has_cond(s)])
         elif isinstance(s, InlineFragmentNode):
             if s.type_condition is None:
                 raise ValueError("untyped inline fragment is outside the model (F2)")
-            out.append([Sym("i"), s.type_condition.name.value, sel_sx(s.selection_set)])
+            out.append([Sym("i"), s.type_condition.name.value, has_cond(s), sel_sx(s.selection_set)])
     return out
 
 
